@@ -72,6 +72,16 @@ func (c *memCache) keys() []string {
 
 // suppliedRoot builds the root argument in the requested representation.
 func suppliedRoot(cs *expCase, mode string) interface{} {
+	if cs.sharedRoots != nil {
+		if r, ok := cs.sharedRoots[mode]; ok {
+			return r
+		}
+		cs2 := *cs
+		cs2.sharedRoots = nil
+		r := suppliedRoot(&cs2, mode)
+		cs.sharedRoots[mode] = r
+		return r
+	}
 	switch mode {
 	case "typed":
 		sw := new(spec.Swagger)
